@@ -437,7 +437,7 @@ def run(ctx: Ctx):
                        "the number of emitted blocks is not asserted (func_adl may inline a lambda into several uses); every emitted block is checked"]
     for be in BACKENDS:
         cxx.std_model(be)
-    total = ctx.n(192, 4800)
+    total = ctx.n(320, 4800)
     shards = 15
     payloads = [(derive_seed(ctx.seed, "C11", i), max(1, total // shards), ctx.deadline, BACKENDS[i % 3]) for i in range(shards)]
     res = run_shards("vf.props.C11", "worker", payloads) + run_shards("vf.props.C11", "builtin_worker", [(derive_seed(ctx.seed, "C11b"), ctx.n(3, 30), ctx.deadline)])
